@@ -447,11 +447,16 @@ func ruleDPEmit(c *Ctx, rule string) {
 	pkg := modPath + "/align/pals/dp"
 	fn := c.fn("align/pals/dp", "(*kernel).alignRecursion")
 	var sends []*ssa.Send
+	// the acceptance test and the emission may sit in a private helper that alignRecursion calls
+	inReach := map[*ssa.Function]bool{}
+	for _, g := range privateReach(fn) {
+		inReach[g] = true
+	}
 	for _, f := range srcFuncs(c.SPkgs[c.pkg("align/pals/dp").PkgPath]) {
 		for _, b := range f.Blocks {
 			for _, ins := range b.Instrs {
 				if s, ok := ins.(*ssa.Send); ok && loadOfField(s.Chan, pkg, "kernel", "result") {
-					if f != fn {
+					if !inReach[f] {
 						c.bad(rule, funcName(f)+"/send-result", s.Pos(), "a hit is emitted outside alignRecursion's acceptance test")
 					}
 					sends = append(sends, s)
@@ -481,9 +486,10 @@ func ruleDPEmit(c *Ctx, rule string) {
 		return hitField(bo.X) + "-" + hitField(bo.Y)
 	}
 	for i, s := range sends {
-		if s.Parent() != fn {
+		if !inReach[s.Parent()] {
 			continue
 		}
+		sfn := s.Parent()
 		pre := fmt.Sprintf("dp.(*kernel).alignRecursion/send#%d", i+1)
 		got := map[string]token.Token{}
 		var identity ssa.Value
@@ -523,7 +529,7 @@ func ruleDPEmit(c *Ctx, rule string) {
 		// Error is assigned that identity before the send
 		key = pre + "/Error=identity"
 		okStore := false
-		for _, b := range fn.Blocks {
+		for _, b := range sfn.Blocks {
 			for _, ins := range b.Instrs {
 				st, ok := ins.(*ssa.Store)
 				if !ok {
@@ -658,11 +664,27 @@ func ruleGridPeriod(c *Ctx, rule string) {
 				}
 				// a store to the captured ticker, on the edge where the ticker was found to be 0
 				rearm := false
+				period := st.Val
 				for _, bf := range branchesAt(b) {
-					if k, ok := constIntVal(bf.cond.Y); ok && k == 0 && effectiveOp(bf, true) == token.EQL {
-						// the compared value derives from a load of the same cell
+					if effectiveOp(bf, true) != token.EQL {
+						continue
+					}
+					if k, ok := constIntVal(bf.cond.Y); ok && k == 0 {
+						// count-down: the compared value derives from a load of the same cell
 						if sameCellValue(bf.cond.X, st.Addr) {
 							rearm = true
+						}
+						continue
+					}
+					// count-up: a counter has reached the mark held in this cell, and the mark is moved on by the period
+					if sameCellValue(bf.cond.X, st.Addr) || sameCellValue(bf.cond.Y, st.Addr) {
+						if add, ok := st.Val.(*ssa.BinOp); ok && add.Op == token.ADD {
+							switch {
+							case sameCellValue(add.X, st.Addr):
+								rearm, period = true, add.Y
+							case sameCellValue(add.Y, st.Addr):
+								rearm, period = true, add.X
+							}
 						}
 					}
 				}
@@ -671,7 +693,7 @@ func ruleGridPeriod(c *Ctx, rule string) {
 				}
 				n++
 				key := fmt.Sprintf("filter.(*Filter).Filter/tick-rearm#%d", n)
-				if fieldValue(st.Val, pkg, "Filter", divisor, flt, 0) {
+				if fieldValue(period, pkg, "Filter", divisor, flt, 0) {
 					c.ok(rule, key, st.Pos(), "the tick is re-armed with "+divisor+", the spacing tubeIndex divides by")
 				} else {
 					c.bad(rule, key, st.Pos(), "the recycling tick is re-armed with something other than "+divisor+" (the tube spacing used by tubeIndex): the tick drifts across the tube grid, periodically steps over a tube without ending it, and that tube's pending match is emitted under the wrong diagonal or lost")
